@@ -53,7 +53,8 @@ def _affine(name):
             "tiny_a": Affine(10.004, 0, 100, 0, -10, 200), "tiny_b": Affine(10, 0.004, 100, 0, -10, 200), "tiny_c": Affine(10, 0, 100.004, 0, -10, 200),
             "tiny_d": Affine(10, 0, 100, 0.004, -10, 200), "tiny_e": Affine(10, 0, 100, 0, -10.004, 200), "tiny_f": Affine(10, 0, 100, 0, -10, 200.004),
             "deg_fine": Affine(0.00025, 0, 10, 0, -0.00025, 50), "deg_fine2": Affine(0.0003, 0, 10, 0, -0.0003, 50),
-            "deg_fine_shift": Affine(0.00025, 0, 10.001, 0, -0.00025, 50)}[name]
+            "deg_fine_shift": Affine(0.00025, 0, 10.001, 0, -0.00025, 50),
+            "eps_c1": Affine(10, 0, 100.000006, 0, -10, 200), "eps_c2": Affine(10, 0, 100.000012, 0, -10, 200), "eps_c3": Affine(10, 0, 100.000018, 0, -10, 200)}[name]
 
 
 def build(d, memo):
@@ -287,7 +288,7 @@ def run(ctx):
     for ev, v in zip(events, verdicts):
         st = ev["st"]
         tags = set()
-        if st["op"] in ("make", "pickle") and st["route"] not in ("int", "epsgstr"):
+        if st["op"] in ("make", "pickle") and st["route"] not in ("int", "epsgstr", "authstr"):
             tags.add("spec_is_wkt_json_or_pyproj_object")
         ctx.record({"st": st, "tid": ev["tid"], "k": ev["k"]}, v, op="history:" + st["op"], tags=tags, conformance=True,
                    nontrivial=st["op"] in ("make", "copy", "pickle", "transform"), sample={"step": st, "observed": ev["ob"]})
